@@ -43,6 +43,7 @@ MIN_REACH = {
     "heatmap_norms_compared": {"quick": 15, "thorough": 250},
     "heatmap_colour_maps_compared": {"quick": 4, "thorough": 80},
     "heatmaps_on_unevenly_spaced_axes": {"quick": 3, "thorough": 60},
+    "figures_drawn_after_a_failed_plot_call": {"quick": 5, "thorough": 100},
     "panel_titles_read_back": {"quick": 100, "thorough": 1500},
     "histograms_with_explicit_axis_limits": {"quick": 5, "thorough": 100},
     "explicit_colour_limits": {"quick": 8, "thorough": 150},
@@ -195,6 +196,11 @@ def build(case):
         v = rng.normal(size=shape)
         if positive:
             v = np.abs(v) + 0.05
+            if case["dseed"] % 2:
+                # finite values that have no position on a log axis (an error that converged to exactly 0, a signed
+                # residual) are data all the same: they belong to the drawn series
+                m = rng.random(shape) < 0.2
+                v[m] = np.where(rng.random(int(m.sum())) < 0.5, 0.0, -v[m])
         return v
 
     def holes(v):
@@ -504,6 +510,17 @@ def run_case(ctx, case):
     errs = []
     fig = None
     plt.close("all")
+    if case["dseed"] % 6 == 4 and not grid and base in ("lineplot", "scatter", "histogram"):
+        # an EARLIER plot call of this session failed part-way (matplotlib refuses a negative error bar at the second
+        # series, after the first was drawn): whatever it left behind, this figure shows this call's data only
+        import xarray as xr
+        dbad = xr.Dataset({"y": (("z", "x"), [[1.0, 2.0], [3.0, 4.0]]), "ye": (("z", "x"), [[0.1, 0.1], [-0.5, 0.1]])},
+                          coords={"x": [0.0, 1.0], "z": [10, 20]})
+        try:
+            with quiet():
+                xyzpy.lineplot(dbad, "x", "y", "z", y_err="ye")
+        except Exception:
+            ctx.count("figures_drawn_after_a_failed_plot_call")
     try:
         with quiet():
             if base in ("lineplot", "lineplot_c"):
@@ -619,6 +636,8 @@ def run_case(ctx, case):
 
     if fig is None:
         bad.append("no figure returned")
+    elif not grid and base in ("lineplot", "scatter", "histogram") and len(data_axes(fig)) != 1:
+        bad.append("the figure has %d data axes for one plot (something drawn by an earlier call is still in it)" % len(data_axes(fig)))
     elif base in ("lineplot", "scatter"):
         axes = data_axes(fig)
         if grid:
